@@ -43,14 +43,14 @@ func extractC03(o *out) {
 		fail("communicator.go: multiplexToUpstream / muxHandler not found")
 		return
 	}
-	m := regexp.MustCompile(`for _, u := range ch\.channels \{ mux\.AddHandler\("([^"]*)"\+u\.Name\(\), ch\.muxHandler\) \}`).FindStringSubmatch(src(mux.Body))
+	m := regexp.MustCompile(`for _, [A-Za-z0-9_]+ := range ch\.channels \{ mux\.AddHandler\("([^"]*)"\+[A-Za-z0-9_]+\.Name\(\), ch\.muxHandler\) \}`).FindStringSubmatch(src(mux.Body))
 	if m == nil {
 		fail("multiplexToUpstream: handler registration not recognised")
 		m = []string{"", ""}
 	}
 	fmt.Fprintf(b, "/-- communicator.go multiplexToUpstream: mux.AddHandler(<prefix>+u.Name(), ch.muxHandler) for every kept channel -/\ndef registerPrefix : String := %s\n", leanStr(m[1]))
 	mhs := src(mh.Body)
-	m = regexp.MustCompile(`^\{ for _, channel := range ch\.channels \{ if protocol == "([^"]*)"\+channel\.Name\(\) \{`).FindStringSubmatch(mhs)
+	m = regexp.MustCompile(`^\{ for _, [A-Za-z0-9_]+ := range ch\.channels \{ if protocol == "([^"]*)"\+[A-Za-z0-9_]+\.Name\(\) \{`).FindStringSubmatch(mhs)
 	if m == nil {
 		fail("muxHandler: first-match loop not recognised")
 		m = []string{"", ""}
